@@ -69,18 +69,59 @@ Theorem C03_ghost_facts :
 Proof. exact ghost_facts_reachable. Qed.
 Print Assumptions C03_ghost_facts.
 
-(* (2') PARTIAL - the same for ONE PUBLISHER CHANNEL: u1 and u2 were allocated by basic.publish frames of the same channel p,
-   u1 before u2, both publishes completed.  Proved from the model property [cur_only_by_publish] (a channel's current message is
-   set only by a basic.publish frame on that channel, to the id it allocates), which is a HYPOTHESIS here: it is not proved
-   (evaluated along the example run below: C03_x_cur_only_by_publish). *)
-Theorem C03_same_channel_sequential_partial :
-  forall cfg fx ls u1 u2 p m, cur_only_by_publish -> fx_clear_current fx = true ->
+(* (2') the same for ONE PUBLISHER CHANNEL: u1 and u2 were allocated by basic.publish frames of the same channel p, u1 before u2.
+   No step from a reachable state delivers u2 from a queue object for the first time while u1 still waits there, never
+   delivered from it. *)
+Theorem C03_first_deliveries_same_channel :
+  forall cfg fx ls l qn qu u1 u2 p, fx_clear_current fx = true ->
+    let s := fst (grun cfg fx (init cfg) ghost0 ls) in
+    let g := snd (grun cfg fx (init cfg) ghost0 ls) in
+    pub_of g u1 = Some p -> pub_of g u2 = Some p -> u1 < u2 ->
+    get_queue s qn = Some qu -> In u1 (q_ready qu) -> ~ D g (q_id qu) u1 ->
+    ~ D g (q_id qu) u2 ->
+    ~ D (gstep s l (fst (step cfg fx s l)) (snd (step cfg fx s l)) g) (q_id qu) u2.
+Proof. exact first_deliveries_same_channel. Qed.
+Print Assumptions C03_first_deliveries_same_channel.
+
+(* what it rests on.  (i) a channel's current message is set only by a basic.publish frame on that very channel, to the id the
+   frame allocates, and the id counter moves only then, by one - every label *)
+Theorem C03_current_message_set_only_by_publish :
+  forall cfg fx s l,
+    (next_uid (fst (step cfg fx s l)) = next_uid s \/
+     (next_uid (fst (step cfg fx s l)) = next_uid s + 1 /\ exists c h ex k md im, l = LMethod c h (MPublish ex k md im))) /\
+    forall c h w, cur_of (fst (step cfg fx s l)) c h = Some w ->
+      cur_of s c h = Some w \/ (w = next_uid s /\ exists ex k md im, l = LMethod c h (MPublish ex k md im)).
+Proof. exact cur_step. Qed.
+Print Assumptions C03_current_message_set_only_by_publish.
+
+(* (ii) of two messages of one channel the earlier one is complete (if ever) before the later one begins *)
+Theorem C03_same_channel_sequential :
+  forall cfg fx ls u1 u2 p m, fx_clear_current fx = true ->
     let g := snd (grun cfg fx (init cfg) ghost0 ls) in
     pub_of g u1 = Some p -> pub_of g u2 = Some p -> u1 < u2 -> done_at g u2 <> None ->
     done_at g u1 = Some m -> m <= u2.
-Proof. exact same_channel_sequential_partial. Qed.
-Print Assumptions C03_same_channel_sequential_partial.
+Proof. exact same_channel_sequential. Qed.
+Print Assumptions C03_same_channel_sequential.
 
+(* (iii) a waiting message has a completion point; so have the unsettled deliveries (which are recorded deliveries) and the keys
+   of the message store *)
+Theorem C03_waiting_has_done_at :
+  forall cfg fx ls qn qu x, fx_clear_current fx = true ->
+    let s := fst (grun cfg fx (init cfg) ghost0 ls) in
+    let g := snd (grun cfg fx (init cfg) ghost0 ls) in
+    get_queue s qn = Some qu -> In x (q_ready qu) -> done_at g x <> None.
+Proof. exact waiting_has_done_at. Qed.
+Print Assumptions C03_waiting_has_done_at.
+
+Theorem C03_unsettled_and_stored_have_done_at :
+  forall cfg fx ls, fx_clear_current fx = true ->
+    let s := fst (grun cfg fx (init cfg) ghost0 ls) in
+    let g := snd (grun cfg fx (init cfg) ghost0 ls) in
+    (forall c h ch e, get_chan s c h = Some ch -> In e (ch_unacked ch) -> D g (u_qid e) (u_msg e) /\ done_at g (u_msg e) <> None) /\ (forall k, In k (st_add s ++ st_db s) -> done_at g (fst k) <> None).
+Proof. exact unsettled_and_stored_have_done_at. Qed.
+Print Assumptions C03_unsettled_and_stored_have_done_at.
+
+(* the names of the first version (with the then unproved premise) still hold *)
 Theorem C03_first_deliveries_same_channel_partial :
   forall cfg fx ls l qn qu u1 u2 p, cur_only_by_publish -> fx_clear_current fx = true ->
     let s := fst (grun cfg fx (init cfg) ghost0 ls) in
@@ -91,6 +132,9 @@ Theorem C03_first_deliveries_same_channel_partial :
     ~ D (gstep s l (fst (step cfg fx s l)) (snd (step cfg fx s l)) g) (q_id qu) u2.
 Proof. exact first_deliveries_same_channel_partial. Qed.
 Print Assumptions C03_first_deliveries_same_channel_partial.
+Theorem C03_cur_only_by_publish : cur_only_by_publish.
+Proof. exact cur_only_by_publish_proved. Qed.
+Print Assumptions C03_cur_only_by_publish.
 
 (* (3) returns, per label (the frame arrives on an open channel h <> 0 of an open connection).
    basic.nack multiple + requeue: the covered deliveries go back ahead of the waiting messages, in delivery-tag order *)
@@ -143,6 +187,28 @@ Theorem C03_socket_loss_keeps_waiting_list_behind :
 Proof. exact socket_loss_keeps_suffix. Qed.
 Print Assumptions C03_socket_loss_keeps_waiting_list_behind.
 
+(* ... exactly: the connection's channels are closed in descending channel-number order; each channel's unsettled deliveries
+   go back in delivery-tag order (close_block: the same block as for channel.close, read off when that channel is closed);
+   the block of a channel closed later ends up further in front; channel 0 has none *)
+Theorem C03_conn_close_returns_blocks :
+  forall cfg fx s c cn q l, get_conn s c = Some cn -> R s q = Some l ->
+    R (fst (conn_close cfg fx s c)) q = None \/ R (fst (conn_close cfg fx s c)) q = Some (close_blocks cfg s c (sort_desc_N (map fst (cn_chans cn))) q ++ l).
+Proof. exact conn_close_returns_blocks. Qed.
+Print Assumptions C03_conn_close_returns_blocks.
+
+Theorem C03_socket_loss_returns_blocks :
+  forall cfg fx s c cn q l, get_conn s c = Some cn -> R s q = Some l ->
+    R (fst (step cfg fx s (LSocketLoss c))) q = None \/ R (fst (step cfg fx s (LSocketLoss c))) q = Some (close_blocks cfg s c (sort_desc_N (map fst (cn_chans cn))) q ++ l).
+Proof. exact socket_loss_returns_blocks. Qed.
+Print Assumptions C03_socket_loss_returns_blocks.
+
+(* ... and every block read off the state BEFORE the teardown, when the connection's channel numbers are distinct *)
+Theorem C03_conn_close_returns_blocks_of_state :
+  forall cfg fx s c cn q l, get_conn s c = Some cn -> NoDup (map fst (cn_chans cn)) -> R s q = Some l ->
+    R (fst (conn_close cfg fx s c)) q = None \/ R (fst (conn_close cfg fx s c)) q = Some (blocks_from s c (sort_desc_N (map fst (cn_chans cn))) q ++ l).
+Proof. exact conn_close_returns_blocks_of_state. Qed.
+Print Assumptions C03_conn_close_returns_blocks_of_state.
+
 Theorem C03_conn_close_keeps_waiting_list_behind :
   forall cfg fx s c q l, R s q = Some l ->
     R (fst (conn_close cfg fx s c)) q = None \/ exists blk, R (fst (conn_close cfg fx s c)) q = Some (blk ++ l).
@@ -185,7 +251,7 @@ Example C03_x_hypotheses_hold :
   let s := fst (grun xcfg all_fixed (init xcfg) ghost0 x_publish) in
   let g := snd (grun xcfg all_fixed (init xcfg) ghost0 x_publish) in
   exists qu, get_queue s "a" = Some qu /\ In 1 (q_ready qu) /\ Db g (q_id qu) 1 = false /\ done_at g 1 = Some 3 /\
-             3 <= 3 /\ Db g (q_id qu) 3 = false.
+             3 <= 3 /\ Db g (q_id qu) 3 = false /\ pub_of g 1 = Some (1, 1) /\ pub_of g 3 = Some (1, 1).
 Proof. vm_compute. eexists. repeat split; try reflexivity; try (intros E; discriminate E). right. left. reflexivity. Qed.
 
 (* two first deliveries (ids 2, 1: the most recent record first), the third turn is refused by the prefetch window *)
@@ -227,7 +293,20 @@ Example C03_x_shared_delivery_count :
   (ready_list s "a", ready_list s "b", g_dlv g, map (fun kv => (fst kv, m_dc (snd kv))) (heap s)) = ([1], [1], [(1, 1)], [(1, 1)]).
 Proof. vm_compute. reflexivity. Qed.
 
-(* the unproved hypothesis of (2') holds at every step of the example run *)
+(* (2')(i) evaluated at every step of the example run *)
 Example C03_x_cur_only_by_publish :
   co_along xcfg all_fixed (init xcfg) (x_publish ++ x_consume ++ x_nack ++ x_more ++ [LSocketLoss 1; LPersistTick; LRestart]) = true.
+Proof. vm_compute. reflexivity. Qed.
+
+(* connection loss with deliveries outstanding on two channels of one connection: channel 2 is closed first, then channel 1,
+   so channel 1's block (id 1) ends up in front of channel 2's (id 2), both ahead of the waiting 3 *)
+Example C03_x_socket_loss_blocks :
+  let ls := ([LConnect 1; LMethod 1 1 MChannelOpen; LMethod 1 2 MChannelOpen; LMethod 1 1 (MQDeclare "a" false false false false false)]
+            ++ pub3 1 1 ++ pub3 1 1 ++ pub3 1 1 ++ [LMethod 1 1 (MGet "a" false); LMethod 1 2 (MGet "a" false)])%list in
+  let s := fst (run xcfg all_fixed (init xcfg) ls) in
+  (ready_list s "a", ready_list (fst (step xcfg all_fixed s (LSocketLoss 1))) "a",
+   match get_conn s 1 with
+   | Some cn => (close_blocks xcfg s 1 (sort_desc_N (map fst (cn_chans cn))) "a", blocks_from s 1 (sort_desc_N (map fst (cn_chans cn))) "a")
+   | None => ([], [])
+   end) = ([3], [1; 2; 3], ([1; 2], [1; 2])).
 Proof. vm_compute. reflexivity. Qed.
